@@ -16,7 +16,8 @@ RULE = ("condition strings = all expression ASTs up to a size bound over a name/
         "concatenations of <=4 tokens from an adversarial token set (malformed stream), plus seeded random larger "
         "expressions; distinct = distinct (text, detection set); non-trivial = >=2 operators, or a selector, or a "
         "keyword-prefixed / underscore / digit-leading name"
-        "; plus the same condition text parsed twice in one process against different detection sets")
+        "; plus the same condition text parsed twice in one process against different detection sets"
+        "; names that are substrings of 'condition', patterns with several '*', the two-step parse API (parse(False) + postprocess) as first use")
 ASSUMPTIONS = [
     "pyparsing implements the five combinators used by the grammar as a scannerless PEG (validated by this sweep)",
     "look-behind half of pyparsing.Keyword is not modelled (cannot fire in the Keyword grammar)",
